@@ -50,6 +50,9 @@ def gen(chk, tier):
             if v2 >= N:
                 ks.append(v2)
         ks += limb_structured(rng, 8 if q else 800)          # limbs with zero halves, single bits, ...
+        # just below and above n: k mod n is tiny, so the multiple is reached through a wrap-around (the last table point
+        # added can then EQUAL the accumulated point - a place where incomplete addition formulas break)
+        ks += [N + j for j in (range(-16, 101) if q else range(-64, 700))] + [T256 - 1 - j for j in range(0, 8 if q else 64)]
         for k in ks:
             g.one("base_scheme_%s" % ("public" if scheme < 0 else "_".join(map(str, SCHEMES[scheme]))), "sm.base",
                   scheme=scheme, k=b32(k))
